@@ -3,9 +3,9 @@ package main
 // json_max_fields_size (jsonDecoder.cutFieldsBySize): differential stream with encoding/json validity
 // of the document before and after the cut.
 //
-//  which 7  one path     case = (#path limit #data)
-//  which 8  several      case = ((#path limit) ... #data)
-//  obs = (validIn validOut (0 #out)|(2 #site)|(3) ((index strlen valid exists isString) ...))
+//  which 8  case = ((#path limit) ... #data)   one or several paths (one path: the decoder takes its fast way)
+//  obs = (validIn validOut (0 #out)|(2 #site)|(3) ((index strlen valid exists isString #raw) ...))
+//  (which 7, case = (#path limit #data), is the older single-path form of main.go without #raw: replays only)
 //
 // The model (coq/Model/Decoders/JsonCut.v) takes gjson's Index and len(Str) from the observable and finds the raw
 // (escaped) text of the string itself; the verdict (coq/Model/Decoders/Entry.v json_cut_run) is
@@ -42,8 +42,13 @@ func execJSONCutManyWith(cs hx.Sx, shared decoder.Decoder) hx.Sx {
 		pl := hx.Items(p)
 		path, limit := hx.Str(pl[0]), int(hx.Int(pl[1]))
 		limits[path] = limit
+		// what findPos gets from gjson for this path, on the document before the cut
 		valid, exists, isStr, index, strLen := decoder.VerifJsonFind(data, path)
-		groups = append(groups, hx.L(hx.I(index), hx.I(strLen), hx.Bool(valid), hx.Bool(exists), hx.Bool(isStr)))
+		var raw string
+		if valid && path != "" {
+			raw = gjson.GetBytes(data, path).Raw
+		}
+		groups = append(groups, hx.L(hx.I(index), hx.I(strLen), hx.Bool(valid), hx.Bool(exists), hx.Bool(isStr), hx.S(raw)))
 	}
 	vin := json.Valid(data)
 	d, err := shared, error(nil)
@@ -52,7 +57,7 @@ func execJSONCutManyWith(cs hx.Sx, shared decoder.Decoder) hx.Sx {
 	}
 	if err != nil {
 		for i := range groups {
-			groups[i] = hx.L(hx.I(0), hx.I(0), hx.I(0), hx.I(0), hx.I(0))
+			groups[i] = hx.L(hx.I(0), hx.I(0), hx.I(0), hx.I(0), hx.I(0), hx.S(""))
 		}
 		return hx.L(hx.Bool(vin), hx.Bool(vin), hx.L(hx.I(0), hx.B(data)), hx.L(groups...))
 	}
@@ -82,8 +87,11 @@ func rawEnd(doc []byte, index int) int {
 	return -1
 }
 
-// the two facts about gjson the model relies on, checked on every generated document
-func checkGjson(c *hmain.Ctx, doc, path string) {
+// the facts about gjson the model relies on, checked on every generated document.  plain: the path has no modifier /
+// multipath, so its result is a slice of the document.
+func checkGjson(c *hmain.Ctx, doc, path string) { checkGjsonPath(c, doc, path, true) }
+
+func checkGjsonPath(c *hmain.Ctx, doc, path string, plain bool) {
 	if path == "" || !gjson.Valid(doc) {
 		return
 	}
@@ -91,10 +99,17 @@ func checkGjson(c *hmain.Ctx, doc, path string) {
 	if !v.Exists() || v.Type != gjson.String {
 		return
 	}
-	c.W.Oracle("gjson: for a string value, Raw is the text from the quote at Index to the first quote not preceded by an unpaired backslash",
-		rawEnd([]byte(doc), v.Index) == len(v.Raw)-2 && v.Index+len(v.Raw) <= len(doc) && doc[v.Index:v.Index+len(v.Raw)] == v.Raw,
-		fmt.Sprintf("%q %s", doc, path))
-	c.W.Oracle("gjson: len(Str) <= len(Raw)-2 (unescaping never lengthens)", len(v.Str) <= len(v.Raw)-2, fmt.Sprintf("%q %s", doc, path))
+	atIndex := v.Index >= 0 && v.Index+len(v.Raw) <= len(doc) && doc[v.Index:v.Index+len(v.Raw)] == v.Raw
+	detail := fmt.Sprintf("%q %s", doc, path)
+	c.W.Oracle("gjson: Index >= 0", v.Index >= 0, detail)
+	c.W.Oracle("gjson: a string value's Raw, when it stands at Index, is the text from that quote to the first quote not preceded by an unpaired backslash (raw_consistent)",
+		!atIndex || rawEnd([]byte(doc), v.Index) == len(v.Raw)-2, detail)
+	if plain {
+		c.W.Oracle("gjson: for a plain path (no modifier, no multipath) Raw stands at Index", atIndex, detail)
+	} else if !atIndex {
+		c.W.Count("json_cut_index_unknown_answer")
+	}
+	c.W.Oracle("gjson: len(Str) <= len(Raw)-2 (unescaping never lengthens)", len(v.Str) <= len(v.Raw)-2, detail)
 }
 
 func unescapedLen(doc, path string) int {
@@ -109,7 +124,7 @@ func genJSONCut(c *hmain.Ctx) {
 	r := c.R
 	do1 := func(stream, path string, limit int, doc string, nontrivial bool) {
 		checkGjson(c, doc, path)
-		c.Do(stream, 7, hx.L(hx.S(path), hx.I(limit), hx.S(doc)), nontrivial)
+		c.Do(stream, 8, hx.L(hx.L(hx.S(path), hx.I(limit)), hx.S(doc)), nontrivial)
 	}
 	// exhaustive: the value of "a" is every concatenation of up to 3 (thorough: 4) raw pieces - plain bytes, UTF-8, two-byte
 	// escapes, \uXXXX, a surrogate pair - with every limit 0..len(raw)+1
@@ -281,12 +296,129 @@ func genJSONCut(c *hmain.Ctx) {
 		}
 		c.Do("json-cut-multi", 8, hx.L(append(ps, hx.S(doc))...), true)
 	}
+	// several paths that name the SAME string (gjson path escapes: a = \a, o.f = o.\f = \o.f = \o.\f): it is cut once, by
+	// the smallest of its limits (a08bbd4; before: the second cut ate the closing quote).  Equal and different limits, with
+	// and without escapes, alone and next to other limited strings.
+	perm := func(n int) []int {
+		p := make([]int, n)
+		for i := range p {
+			p[i] = i
+		}
+		for i := n - 1; i > 0; i-- {
+			j := r.Intn(i + 1)
+			p[i], p[j] = p[j], p[i]
+		}
+		return p
+	}
+	aliasA := []string{"a", `\a`}
+	aliasF := []string{"o.f", `o.\f`, `\o.f`, `\o.\f`}
+	for i := 0; i < 2500*c.Scale; i++ {
+		a, la := val(0, 16)
+		f, lf := val(0, 12)
+		z, lz := val(0, 8)
+		doc := `{"a":` + a + `,"o":{"f":` + f + `,"g":7},"z":` + z + `}`
+		var ps []hx.Sx
+		add := func(paths []string, n, rawLen int) {
+			same := r.Intn(rawLen + 2)
+			for _, k := range perm(len(paths))[:n] {
+				limit := same
+				if r.Bool() {
+					limit = r.Intn(rawLen + 2)
+				}
+				ps = append(ps, hx.L(hx.S(paths[k]), hx.I(limit)))
+			}
+		}
+		switch r.Intn(5) {
+		case 0:
+			add(aliasA, 2, la)
+		case 1:
+			add(aliasF, 2+r.Intn(3), lf)
+		case 2:
+			add(aliasA, 2, la)
+			add(aliasF, 2+r.Intn(3), lf)
+		case 3:
+			add(aliasA, 2, la)
+			add([]string{"z"}, 1, lz)
+		default:
+			add(aliasF, 2, lf)
+			add([]string{"a"}, 1, la)
+			add([]string{"z"}, 1, lz)
+		}
+		shuffled := make([]hx.Sx, 0, len(ps))
+		for _, k := range perm(len(ps)) {
+			shuffled = append(shuffled, ps[k])
+		}
+		ps = shuffled
+		for _, p := range []string{"a", `\a`, "o.f", `o.\f`, `\o.f`, `\o.\f`, "z"} {
+			checkGjson(c, doc, p)
+		}
+		c.Do("json-cut-aliased", 8, hx.L(append(ps, hx.S(doc))...), true)
+	}
+	// paths whose result is not a slice of the document (modifiers, multipaths): gjson leaves Index at 0 (or relative to a
+	// copy) and such a path must cut nothing (86e6b5f; before: the document was cut at offset limit+1).  Alone (the fast
+	// way) and next to plain paths, aliases included.
+	unknown := []string{"a|@this", "a|@reverse", "o.f|@this", "o|@this|f", "o|@ugly|f", "[a,z].0", "[a,z].1", "{a,z}.a", `{"q":o.f}.q`, "z|@this"}
+	for i := 0; i < 2500*c.Scale; i++ {
+		a, la := val(0, 16)
+		f, lf := val(0, 12)
+		z, lz := val(0, 8)
+		doc := `{"a":` + a + `,"o":{"f":` + f + `,"g":7},"z":` + z + `}`
+		if r.Chance(1, 8) {
+			doc = ` { "a" : ` + a + ` , "o" : { "f" : ` + f + ` , "g":7 } , "z" : ` + z + ` } `
+		}
+		maxLen := la + lf + lz + 2
+		var ps []hx.Sx
+		used := map[string]bool{}
+		add := func(path string, limit int) {
+			if !used[path] {
+				used[path] = true
+				ps = append(ps, hx.L(hx.S(path), hx.I(limit)))
+			}
+		}
+		nUnknown := 1
+		if r.Chance(1, 3) {
+			nUnknown = 2
+		}
+		for k := 0; k < nUnknown; k++ {
+			add(hx.Pick(r, unknown), r.Intn(maxLen))
+		}
+		switch r.Intn(4) {
+		case 0: // alone: one configured path takes the fast way
+		case 1:
+			add("a", r.Intn(la+2))
+		case 2:
+			add("a", r.Intn(la+2))
+			add(`\a`, r.Intn(la+2))
+			add("z", r.Intn(lz+2))
+		default:
+			add("o.f", r.Intn(lf+2))
+			add(`o.\f`, r.Intn(lf+2))
+		}
+		shuffled := make([]hx.Sx, 0, len(ps))
+		for _, k := range perm(len(ps)) {
+			shuffled = append(shuffled, ps[k])
+		}
+		for p := range used {
+			plain := p == "a" || p == `\a` || p == "z" || p == "o.f" || p == `o.\f`
+			checkGjsonPath(c, doc, p, plain)
+		}
+		c.Do("json-cut-aliased", 8, hx.L(append(shuffled, hx.S(doc))...), true)
+	}
 	// ONE decoder used by several goroutines at once (a pipeline has one decoder and Pipeline.In is called from every
 	// input worker): every line must be cut exactly as it is when the decoder is used alone.  Each goroutine repeats its
 	// lines; the recorded observable is the first one that differs from the line's first result, else that first result.
 	for round := 0; round < 4*c.Scale; round++ {
 		la, lb, lf := 1+r.Intn(10), 1+r.Intn(10), 1+r.Intn(6)
 		limits := map[string]any{"a": la, "b": lb, "o.f": lf}
+		pathLimits := []hx.Sx{hx.L(hx.S("a"), hx.I(la)), hx.L(hx.S("b"), hx.I(lb)), hx.L(hx.S("o.f"), hx.I(lf))}
+		if round%2 == 1 { // two of the strings are named twice
+			la2, lf2 := 1+r.Intn(10), lf
+			limits[`\a`], limits[`o.\f`] = la2, lf2
+			pathLimits = append(pathLimits, hx.L(hx.S(`\a`), hx.I(la2)), hx.L(hx.S(`o.\f`), hx.I(lf2)))
+			lu := r.Intn(12) // and two paths whose result is not a slice of the document
+			limits["a|@this"], limits["[b,a].0"] = lu, lu+1
+			pathLimits = append(pathLimits, hx.L(hx.S("a|@this"), hx.I(lu)), hx.L(hx.S("[b,a].0"), hx.I(lu+1)))
+		}
 		d, err := decoder.NewJsonDecoder(decoder.Params{"json_max_fields_size": limits})
 		if err != nil {
 			continue
@@ -300,7 +432,7 @@ func genJSONCut(c *hmain.Ctx) {
 				f, _ := val(0, 12)
 				pad, _ := val(0, 30)
 				doc := `{"pad":` + pad + `,"a":` + a + `,"o":{"f":` + f + `,"g":7},"b":` + b2 + `}`
-				cases[g] = append(cases[g], hx.L(hx.L(hx.S("a"), hx.I(la)), hx.L(hx.S("b"), hx.I(lb)), hx.L(hx.S("o.f"), hx.I(lf)), hx.S(doc)))
+				cases[g] = append(cases[g], hx.L(append(append([]hx.Sx(nil), pathLimits...), hx.S(doc))...))
 			}
 		}
 		obs := make([][]hx.Sx, G)
@@ -337,7 +469,7 @@ func genJSONCut(c *hmain.Ctx) {
 	// negative limits are a configuration error (rejected by extractJsonParams after the repair)
 	for i := 0; i < 300*c.Scale; i++ {
 		doc := `{"a":` + q(plain(0, 12)) + `,"b":1}`
-		c.Do("json-cut-negative-limit", 7, hx.L(hx.S("a"), hx.I(-1-r.Intn(12)), hx.S(doc)), true)
+		c.Do("json-cut-negative-limit", 8, hx.L(hx.L(hx.S("a"), hx.I(-1-r.Intn(12))), hx.S(doc)), true)
 	}
 }
 
